@@ -463,9 +463,9 @@ fn http_script(t: &Transport) -> Script {
                 3 => Action { body: Body::Short(*k as usize), ..Default::default() },
                 _ => Action { body: Body::Wrong, ..Default::default() },
             };
-            Script { rules: vec![(When::Nth(*nth as usize), a)], data_from: 0 }
+            Script { rules: vec![(When::Nth(*nth as usize), a)], data_from: 0, max_requests: 400 }
         }
-        _ => Script::default(),
+        _ => Script { max_requests: 400, ..Default::default() },
     }
 }
 
@@ -607,6 +607,9 @@ pub fn run_case_inner(c: &Case, rec: &mut CaseRec, strict: bool) -> Result<(), S
                 let srv = http::Server::start(Arc::new(m.bytes.clone()), http_script(t));
                 let url: reqwest::Url = srv.url().parse().unwrap();
                 pipeline(HttpReader::from_url(url), input_len, m.declared_sum + 4096, seed.clone(), &mut fails, rec);
+                if srv.overrun.load(std::sync::atomic::Ordering::SeqCst) {
+                    fails.push(StepFail { step: "requests", fail: Fail::msg(format!("step requests: [unbounded-http-requests] the client sent more than {} requests for one archive (no bound on re-requests)", 400)) });
+                }
                 drop(srv);
             }
         }
